@@ -560,7 +560,7 @@ func (mw *msgWriter) writeBody(writeFunc func(io.Writer) (int64, error), encodin
 		}
 		return
 	default:
-		encodedWriter = quotedprintable.NewWriter(writer)
+		encodedWriter = quotedprintable.NewWriter(&writeBuffer)
 	}
 
 	_, err = writeFunc(encodedWriter)
